@@ -70,6 +70,12 @@ StatusOK(e, c, v) ==
          /\ e.cl.status.msgequal /\ e.cl.status.detequal
     ELSE (~v.failed => e.cl.http = 200)
 
+FinalStatusOK(e, c, v) ==
+  IF c.proto = "ws" THEN e.cl.http = 101 => e.cl.status.present
+  ELSE IsGrpc(c.proto) =>
+         /\ e.cl.status.present
+         /\ (IF v.code = AnyError THEN e.cl.status.code # 0 ELSE (e.cl.status.code = 0) = ~v.failed)
+
 \* what the handler got from each recv (index, "eof", "error"), all equal to what was sent
 RecvSeen(e) == [k \in DOMAIN e.h.recv |->
                   IF e.h.recv[k].err = "" THEN RR(IF e.h.recv[k].equal THEN e.h.recv[k].idx ELSE -1, "ok")
@@ -176,6 +182,9 @@ Judge(e) ==
   ELSE IF c.maxsend > 0 /\ \E k \in DOMAIN e.replies : e.replies[k] > c.maxsend
        THEN (IF ~RecvOK(e, c, v) THEN {"RecvSeq"} ELSE {}) \cup (IF ~NeverOverLimit(e, c) THEN {"NeverOverLimit"} ELSE {})
   ELSE (IF ~StatusOK(e, c, v) THEN {"StatusFidelity"} ELSE {})
+   \* (C06) the message sequence ends with a final status on the transports that have a channel for it, and the status says
+   \* whether the handler succeeded (code, message and details are StatusFidelity's business)
+   \cup (IF ~FinalStatusOK(e, c, v) THEN {"FinalStatus"} ELSE {})
    \cup (IF ~RecvOK(e, c, v) THEN {"RecvSeq"} ELSE {})
    \cup (IF ~RepliesOK(e, c, v) \/ (~e.cl.clean /\ ~(~HasStatusChannel(c.proto) /\ v.failed /\ v.sentAny)) THEN {"ReplySeq"} ELSE {})
    \cup (IF ~SendResOK(e, v) THEN {"SendResult"} ELSE {})
